@@ -276,6 +276,8 @@ type c10backend struct {
 }
 
 func runC10Seq(c *vk.Ctx, ops []c10op, key string, backends []string) {
+	abandonedDumps := 0
+	defer func() { c.Count("listings_abandoned_before_a_compared_listing", int64(abandonedDumps)) }()
 	ref := newRefStore()
 	var bks []*c10backend
 	for _, name := range backends {
@@ -441,6 +443,23 @@ func runC10Seq(c *vk.Ctx, ops []c10op, key string, backends []string) {
 					dmp, err = bk.store.Dump(ctx, []byte(op.Key))
 					if err != nil {
 						return
+					}
+					// before the listing that is compared: a listing on the same handle that is abandoned after a few
+					// entries (a caller that only looks whether anything is there), closed or not
+					if ab := len(op.Key) + i; ab%3 != 0 {
+						if pre, perr := bk.store.Dump(ctx, []byte(op.Key)); perr == nil {
+							for n := 0; n < ab%3-1; n++ {
+								pre.Next(ctx)
+							}
+							if ab%2 == 0 {
+								pre.Close()
+							}
+							abandonedDumps++
+						}
+						dmp, err = bk.store.Dump(ctx, []byte(op.Key))
+						if err != nil {
+							return
+						}
 					}
 					gotDump = map[string][]byte{}
 					for n := 0; n < 10000; n++ {
